@@ -131,6 +131,38 @@ Lexical ==
                            SDecl(Nm(H), EList(<<EProp(Nm(O1), FK)>>)), SAssign(EIndex(Nm(H), I(0)), EProp(Nm(O2), FK)),
                            SPrint(ECall(EIndex(Nm(H), I(0)), <<>>)),
                            SAssign(EProp(Nm(O1), FK), EProp(Nm(O2), FK)), SPrint(ECall(EProp(Nm(O1), FK), <<>>))>>,
+      \* assigning a function that was never read from an object removes the receiver the slot had
+      assignplain |-> <<SFn(F, <<>>, FALSE, <<SReturn(ThisTag)>>),
+                        SDecl(Nm(O1), EObj(<<Pair(EStr(TAG), I(1)), Pair(EStr(FK), Nm(F))>>)),
+                        SDecl(Nm(G), EProp(Nm(O1), FK)), SPrint(ECall(Nm(G), <<>>)),
+                        SDecl(Nm(H), EList(<<EProp(Nm(O1), FK)>>)), SAssign(EIndex(Nm(H), I(0)), Nm(F)),
+                        SAssign(Nm(G), Nm(F)), SPrint(I(5)), SPrint(ECall(Nm(G), <<>>))>>,
+      assignplainlist |-> <<SFn(F, <<>>, FALSE, <<SReturn(ThisTag)>>),
+                            SDecl(Nm(O1), EObj(<<Pair(EStr(TAG), I(1)), Pair(EStr(FK), Nm(F))>>)),
+                            SDecl(Nm(H), EList(<<EProp(Nm(O1), FK)>>)), SPrint(ECall(EIndex(Nm(H), I(0)), <<>>)),
+                            SAssign(EIndex(Nm(H), I(0)), Nm(F)), SPrint(I(5)), SPrint(ECall(EIndex(Nm(H), I(0)), <<>>))>>,
+      assignplainprop |-> <<SFn(F, <<>>, FALSE, <<SReturn(ThisTag)>>),
+                            SDecl(Nm(O1), EObj(<<Pair(EStr(TAG), I(1)), Pair(EStr(FK), Nm(F))>>)),
+                            SDecl(Nm(O2), EObj(<<Pair(EStr(TAG), I(2)), Pair(EStr(FK), EProp(Nm(O1), FK))>>)),
+                            SAssign(EProp(Nm(O2), FK), Nm(F)), SPrint(ECall(EProp(Nm(O2), FK), <<>>)),
+                            SDecl(Nm(G), EProp(Nm(O2), FK)), SAssign(Nm(G), ENull), SAssign(Nm(G), Nm(F)), SPrint(ECall(Nm(G), <<>>))>>,
+      \* a method that mentions `this` only inside an interpolation slot, a nested function, a default position
+      thisinslot |-> <<SDecl(Nm(O1), EObj(<<Pair(EStr(TAG), EStr(<<111, 110, 101>>)),
+                            Pair(EStr(FK), EFunc(<<>>, FALSE, <<SReturn(EIStr(<<Lit(<<60>>), SlotP(0, ThisTag), Lit(<<62>>)>>))>>))>>)),
+                       SDecl(Nm(O2), EObj(<<Pair(EStr(TAG), EStr(<<116, 119, 111>>)),
+                            Pair(EStr(FK), EProp(Nm(O1), FK)),
+                            Pair(EStr(<<103>>), EFunc(<<>>, FALSE, <<SReturn(ECall(EProp(Nm(O1), FK), <<>>))>>))>>)),
+                       SPrint(ECall(EProp(Nm(O1), FK), <<>>)), SPrint(ECall(EProp(Nm(O2), FK), <<>>)),
+                       SPrint(ECall(EProp(Nm(O2), <<103>>), <<>>)),
+                       SDecl(Nm(G), EProp(Nm(O1), FK)), SPrint(ECall(Nm(G), <<>>)),
+                       SDecl(Nm(H), EFunc(<<>>, FALSE, <<SReturn(EIStr(<<Lit(<<>>), SlotP(0, ThisTag), Lit(<<>>)>>))>>)),
+                       SPrint(ECall(Nm(H), <<>>))>>,
+      thisinnested |-> <<SDecl(Nm(O1), EObj(<<Pair(EStr(TAG), I(1)),
+                              Pair(EStr(FK), EFunc(<<>>, FALSE,
+                                   <<SDecl(Nm(G), EFunc(<<>>, FALSE, <<SReturn(EIStr(<<Lit(<<>>), SlotP(0, ECall(ETProp(ThisTag, N_type), <<>>)), Lit(<<>>)>>))>>)),
+                                     SReturn(ECall(Nm(G), <<>>))>>))>>)),
+                         SPrint(ECall(EProp(Nm(O1), FK), <<>>)),
+                         SDecl(Nm(H), EProp(Nm(O1), FK)), SPrint(ECall(Nm(H), <<>>))>>,
       typefnvar |-> <<SDecl(Nm(G), ETProp(EStr(<<97, 98>>), N_len)), SPrint(ECall(Nm(G), <<>>)),
                       SDecl(Nm(H), ETProp(EList(<<>>), N_type)), SPrint(ECall(Nm(H), <<>>))>> ]
 
